@@ -10,8 +10,35 @@ GROUPS = [
          refinements=[((SF, "ContentProvider._clean_content"), ("Provider", "_clean_content"))]),
 ]
 NOT_CARRIED = ["every recogniser: the regular expressions of ip.py, hostname.py, mac.py, password.py (look-around, back-references) and the "
-               "str.replace chains that remove what they find - outside both solvers' theories; NOT decided",
+               "str.replace chains that remove what they find - outside both solvers' theories; NOT decided deductively - "
+               "covered only by the bounded stand-in bounded/cleaner_exhaustive.py (labelled bounded)",
                "'no occurrence of a keyword remains' (replace can re-create a keyword across the seam of a substitute)",
                "RawFileProvider.write copies without cleaning (documented exemption)",
                "decided here: which stage runs on which line, in which order, under which exemption; that a pattern-matching line is dropped; "
                "that what is written is exactly the cleaned content"]
+
+
+def bounded(check):
+    """bounded stand-in for the recognition half (regular expressions, replace chains): the real Cleaner on generated lines"""
+    import json, os, subprocess
+    lvl = 1 if check.tier == "quick" else 2
+    here = os.path.dirname(os.path.dirname(os.path.abspath(__file__)))
+    p = subprocess.run(["/venv/bin/python", os.path.join(here, "bounded", "cleaner_exhaustive.py"), check.repo.root, str(lvl)],
+                       stdout=subprocess.PIPE, stderr=subprocess.PIPE, universal_newlines=True, timeout=3000)
+    line = (p.stdout.strip().splitlines() or ["{}"])[-1]
+    try:
+        info = json.loads(line)
+    except ValueError:
+        info = {"error": (p.stderr or p.stdout)[-400:]}
+    out = dict(name="recognition: no IPv4 / host name / MAC / password secret / keyword / excluded line survives the real Cleaner", level="bounded",
+               bound="level %d: 3-5 addresses, 3 host-name forms, 2 MACs x 7-10 prefixes x 8-12 suffixes (line start/end, punctuation), two per line; "
+                     "7 password notations x 1-3 occurrences; 2 keywords; plain and regex exclusion lists" % lvl,
+               result=info, violation=(p.returncode == 1), error=(p.returncode not in (0, 1)))
+    if p.returncode == 1:
+        os.makedirs(os.path.join(here, "replays"), exist_ok=True)
+        path = os.path.join(here, "replays", "C08-bounded.json")
+        json.dump(dict(obligation="bounded:cleaner-recognition", witness=info,
+                       replay_cmd="/venv/bin/python %s %s %d" % (os.path.join(here, "bounded", "cleaner_exhaustive.py"), check.repo.root, lvl)),
+                  open(path, "w"), indent=1)
+        out["replay"] = path
+    return [out]
